@@ -697,3 +697,114 @@ def neutral_corpus(seed, n_stmt, n_inh, n_mod, auto, start_id=1):
     for c in cases:
         c["neutral"] = True
     return cases
+
+
+# ---------------------------------------------------------------------------
+# data faults (C38)
+# ---------------------------------------------------------------------------
+
+FAULT_OBJS = {"o1": {"attrs": {"a": J.vint(1), "ra": {"t": "raiser", "exc": "AttributeError", "id": "ra"},
+                               "rk": J.vint(8), "rp": {"t": "raiser", "exc": "Private", "id": "rp"}},
+                     "items": {"a": J.vint(2), "ra": J.vint(7), "rk": {"t": "raiser", "exc": "KeyError", "id": "rk"},
+                               "ri": {"t": "raiser", "exc": "Private", "id": "ri"}},
+                     "str": J.vstr("O<1>")},
+              "o2": {"attrs": {}, "items": {}, "str": {"t": "raiser", "exc": "Private", "id": "strfault"}}}
+
+
+def fault_base_case(rnd, cid):
+    """A clean program that talks to its data a lot: calls, iteration, attribute and item
+    access, printing objects - inside macros, loops, conditionals, includes and blocks."""
+    def call(f=None, arg=None):
+        f = f or rnd.choice(["f1", "f2", "f3"])
+        return J.Call(N(f), [arg] if arg is not None else ([C(rnd.randint(1, 3))] if f == "f1" else []))
+
+    def unit():
+        r = rnd.random()
+        if r < 0.25: return [J.Out(call())]
+        if r < 0.4: return [J.For(J.TName("x"), rnd.choice([call("f3"), N("it"), N("l1")]), [J.Out(N("x")), J.Out(call("f1", N("x"))), J.Text(",")])]
+        if r < 0.55: return [J.Out(rnd.choice([J.Getattr(N("o1"), "a"), J.Getitem(N("o1"), C("a")), J.Getattr(N("o1"), "ra"),
+                                                J.Getitem(N("o1"), C("rk")), J.Getattr(N("o1"), "zz"), N("o1")]))]
+        if r < 0.65: return [J.If([call("f2")], [[J.Text("T"), J.Out(call())]], [J.Text("F")])]
+        if r < 0.75: return [J.Set("v", call()), J.Out(N("v"))]
+        if r < 0.85: return [J.Out(J.Filter(call("f4"), "default", [C("dflt")]))]
+        return [J.Out(J.Test(call("f4"), "defined")), J.Out(J.Filter(J.List([call("f1", C(2)), call("f2")]), "join", [C("+")]))]
+
+    body = [J.Text("[")]
+    tpls = {}
+    for _ in range(rnd.randint(2, 4)):
+        u = unit()
+        r = rnd.random()
+        if r < 0.2:
+            body.append(J.Macro("m", [], [], u)); body.append(J.Out(J.Call(N("m"))))
+        elif r < 0.35:
+            body.append(J.For(J.TName("j"), J.List([C(1), C(2)]), u))
+        elif r < 0.5:
+            tpls["inc"] = J.template(u, False)
+            body.append(J.Include(C("inc")))
+        elif r < 0.6:
+            body.append(J.Block("b", u))
+        elif r < 0.7:
+            body.append(J.SetBlock("sb", u)); body.append(J.Out(N("sb")))
+        else:
+            body.extend(u)
+        body.append(J.Text("|"))
+    body.append(J.Text("]"))
+    # de-duplicate block / macro names
+    seen = 0
+    for n in J.walk(body):
+        if n.get("k") == "block":
+            seen += 1; n["name"] = f"b{seen}"
+    tpls["main"] = J.template(body, rnd.random() < 0.3)
+    data = {"f1": J.vfn("f1", "arg0", J.vint(0)), "f2": J.vfn("f2", "const", J.vint(5)),
+            "f3": J.vfn("f3", "const", J.vlist([J.vint(1), J.vint(2)])), "f4": J.vfn("f4", "stopiter"),
+            "it": J.vlist([J.vint(4), J.vint(5), J.vint(6)]), "l1": J.vlist([J.vint(7)]), "o1": J.vobj("o1")}
+    return J.make_case(cid, tpls, "main", [data], objs=FAULT_OBJS)
+
+
+def fault_variants(base, obs, start_id):
+    """For every callable and every k up to the number of calls the clean run made: the k-th call raises.
+    Plus: the iterable raises at every step, attribute / item / str faults."""
+    import copy
+    out = []
+    calls = {}
+    for ev in obs["log"]:
+        if ev[0] == "call":
+            calls[ev[1]] = calls.get(ev[1], 0) + 1
+    d0 = base["datas"][0]
+    def variant(newdata, objs=None, body=None):
+        c = copy.deepcopy(base)
+        c["id"] = start_id + len(out)
+        c["datas"] = [newdata]
+        if objs: c["objs"] = objs
+        out.append(c)
+    for fid, n in calls.items():
+        if fid not in ("f1", "f2", "f3"):
+            continue
+        for k in range(1, n + 1):
+            f = dict(d0[fid], mode="raise_at", k=k, then=d0[fid]["mode"])
+            variant(dict(d0, **{fid: f}))
+    uses_it = any(n.get("k") == "name" and n.get("n") == "it" for t in base["tpls"].values() for n in J.walk(t["body"]))
+    if uses_it:
+        for k in range(1, 5):
+            variant(dict(d0, it={"t": "iterfault", "v": d0["it"]["v"], "k": k, "id": f"it{k}"}))
+    src = json_dumps(base["tpls"])
+    if '"o1"' in src:
+        o = copy.deepcopy(FAULT_OBJS)
+        o["o1"]["attrs"]["a"] = {"t": "raiser", "exc": "Private", "id": "attr_a"}
+        variant(d0, objs=o)
+        o = copy.deepcopy(FAULT_OBJS)
+        o["o1"]["items"]["a"] = {"t": "raiser", "exc": "Private", "id": "item_a"}
+        variant(d0, objs=o)
+        o = copy.deepcopy(FAULT_OBJS)
+        o["o1"]["str"] = {"t": "raiser", "exc": "Private", "id": "str_o1"}
+        variant(d0, objs=o)
+        o = copy.deepcopy(FAULT_OBJS)
+        o["o1"]["attrs"]["zz"] = {"t": "raiser", "exc": "AttributeError", "id": "zz"}
+        o["o1"]["items"]["zz"] = {"t": "raiser", "exc": "KeyError", "id": "zzk"}
+        variant(d0, objs=o)
+    return out
+
+
+def json_dumps(x):
+    import json
+    return json.dumps(x)
